@@ -42,7 +42,7 @@ def run(ctx):
                 if rep["torn"]:
                     ctx.violation(f"C07/torn:{mode}", f"{rep['torn']} reads under a guard saw a mixture of two values", dict(scenario=sc, trace_file=out))
                 if rep.get("hot_reload_returned_before_slow_reload"):
-                    ctx.violation(f"C07/early-return:{mode}", "hot_reload returned while the reload it had triggered was still reading the source (1.4 s into a blocked read): "
+                    ctx.violation(f"C07/early-return:{mode}", "hot_reload returned while the reload it had triggered was still reading the source (2.6 s into a blocked read): "
                                   "the value changes after the call, outside hot_reload", dict(scenario=sc))
                 if not rep.get("slow_reload_applied", True):
                     ctx.violation(f"C07/slow-reload-lost:{mode}", "after a reload whose source read took seconds, the value is not the new one when hot_reload has returned", dict(scenario=sc))
